@@ -125,7 +125,7 @@ func judge(c Case) (*vf.Failure, string) {
 
 func TestPrograms(t *testing.T) {
 	defer vf.AfterCheck(t)
-	vf.Checks(512, 5000)
+	vf.Checks(512, 2400)
 	rapid.Check(t, func(t *rapid.T) {
 		cfg := gen.Config{MaxStmts: rapid.IntRange(3, 9).Draw(t, "size"), MaxDepth: rapid.IntRange(1, 3).Draw(t, "depth"), Funcs: 3, Structs: true, AllowRTE: rapid.IntRange(0, 3).Draw(t, "rte") == 0}
 		prog, feats := gen.Generate(t, cfg)
